@@ -184,6 +184,19 @@ def run(case: dict, ctx) -> dict:
                 res["viol"].append({"what": "visible configuration changed although unlock failed", "mech": "vmx.auth", "detail": {"combo": combo}})
         orr = call(vr.unlock_with_phrase, phrase)
         cnt["retry_on_same_object_roundtrips"] = 1
+        if orr.ok and not res["viol"]:
+            # ... and after the object has been unlocked, another passphrase is still another passphrase
+            snap_u = copy.deepcopy(vr.attr)
+            for wp in (phrase + " ", "", phrase[::-1] if phrase[::-1] != phrase else phrase + "z"):
+                ow2 = call(vr.unlock_with_phrase, wp)
+                cnt["wrong_passphrase_cases"] = cnt.get("wrong_passphrase_cases", 0) + 1
+                if ow2.ok:
+                    res["viol"].append({"what": "unlock with a wrong passphrase succeeded on an object that had been unlocked before", "mech": "vmx.auth",
+                                        "detail": {"combo": combo, "right": phrase, "used": wp}})
+                    break
+                if vr.attr != snap_u:
+                    res["viol"].append({"what": "visible configuration changed although unlock failed", "mech": "vmx.auth", "detail": {"combo": combo}})
+                    break
         if not res["viol"] and (not orr.ok or any(vr.attr.get(k_) != val for k_, val in model.items())):
             res["viol"].append({"what": "the correct passphrase does not unlock an object on which a wrong passphrase was tried before", "mech": MECH,
                                 "detail": {"combo": combo, "outcome": orr.brief()}})
